@@ -5,6 +5,7 @@
 package c03
 
 import (
+	"bufio"
 	"encoding/json"
 	"fmt"
 	"io/ioutil"
@@ -40,7 +41,51 @@ type Case struct {
 	Depth  string `json:"depth,omitempty"`
 	Source string `json:"source,omitempty"` // for channel=destination
 	Root   string `json:"root,omitempty"`   // spelling of the configured root ("" = clean absolute path)
+	// Parsed: Str is raw request-line / header text (as with Wire), but the
+	// request is read by net/http's request reader in-process and handed to
+	// the handler without a socket.
+	Parsed bool `json:"parsed,omitempty"`
+	// Body: "" = no body; otherwise the request carries a well-formed XML
+	// body of its method with an XML Content-Type: "allprop" | "propname" |
+	// "prop" (PROPFIND), "update" (PROPPATCH).
+	Body      string `json:"body,omitempty"`
+	Overwrite string `json:"overwrite,omitempty"` // Overwrite header of a COPY/MOVE ("" = absent)
+	// Prior: the requests that were served since the pre-state was built and
+	// changed it (the case meets what they left, not the pristine pre-state).
+	Prior []Case `json:"prior,omitempty"`
 }
+
+// raw reports whether Str is request-line / header text rather than a decoded
+// path.
+func (cs Case) raw() bool { return cs.Wire || cs.Parsed }
+
+func (cs Case) kind() string {
+	switch {
+	case cs.Wire:
+		return "wire"
+	case cs.Parsed:
+		return "parsed"
+	}
+	return "inproc"
+}
+
+// xmlBody returns the well-formed request body of the given variant.
+func xmlBody(variant string) string {
+	const head = `<?xml version="1.0" encoding="utf-8"?>`
+	switch variant {
+	case "allprop":
+		return head + `<D:propfind xmlns:D="DAV:"><D:allprop/></D:propfind>`
+	case "propname":
+		return head + `<D:propfind xmlns:D="DAV:"><D:propname/></D:propfind>`
+	case "prop":
+		return head + `<D:propfind xmlns:D="DAV:"><D:prop><D:resourcetype/><D:getcontentlength/><D:getetag/><D:displayname/><X:nosuch xmlns:X="urn:c03"/></D:prop></D:propfind>`
+	case "update":
+		return head + `<D:propertyupdate xmlns:D="DAV:" xmlns:X="urn:c03"><D:set><D:prop><X:colour>blue</X:colour><D:displayname>n</D:displayname></D:prop></D:set><D:remove><D:prop><X:stale/></D:prop></D:remove></D:propertyupdate>`
+	}
+	return ""
+}
+
+const xmlContentType = `application/xml; charset="utf-8"`
 
 type sandbox struct {
 	base     string // <workdir>/c03-…
@@ -104,6 +149,9 @@ func (s *sandbox) resetRoot(state string) error {
 		ioutil.WriteFile(filepath.Join(s.root, "sub", "\uFFFF"), []byte("ffff"), 0644)
 		ioutil.WriteFile(filepath.Join(s.root, "sub", "caf\u00e9 \u4e2d\u6587 %41+~'()"), []byte("mixed"), 0644)
 		ioutil.WriteFile(filepath.Join(s.root, "sub", "..."+"", "x"), []byte("x"), 0644)
+		// a name whose bytes may travel raw in a request target although a
+		// URL writer would escape them
+		ioutil.WriteFile(filepath.Join(s.root, "sub", rawName), []byte("raw bytes name"), 0644)
 	}
 	return nil
 }
@@ -133,9 +181,23 @@ var rootSpellings = []string{"trailing-slash", "double-slash", "dot-segment", "d
 // spelling, and a function that undoes the change of working directory the
 // relative spellings need.
 func (s *sandbox) handler(spelling string) (http.Handler, func()) {
+	spelled, chdir := s.spell(spelling)
+	undo := func() {}
+	if chdir != "" {
+		if cwd, err := os.Getwd(); err == nil && os.Chdir(chdir) == nil {
+			undo = func() { os.Chdir(cwd) }
+		} else {
+			spelled = s.root
+		}
+	}
+	return &webdav.Handler{FileSystem: webdav.LocalFileSystem(spelled)}, undo
+}
+
+// spell gives the configured root in the given spelling and the working
+// directory a relative spelling needs ("" = any).
+func (s *sandbox) spell(spelling string) (spelled, chdir string) {
 	dir, base := filepath.Dir(s.root), filepath.Base(s.root)
-	spelled := s.root
-	chdir := ""
+	spelled = s.root
 	switch spelling {
 	case "trailing-slash":
 		spelled = s.root + "/"
@@ -154,18 +216,14 @@ func (s *sandbox) handler(spelling string) (http.Handler, func()) {
 	case "dot-slash":
 		spelled, chdir = "./", s.root
 	}
-	undo := func() {}
-	if chdir != "" {
-		if cwd, err := os.Getwd(); err == nil && os.Chdir(chdir) == nil {
-			undo = func() { os.Chdir(cwd) }
-		} else {
-			spelled = s.root
-		}
-	}
-	return &webdav.Handler{FileSystem: webdav.LocalFileSystem(spelled)}, undo
+	return spelled, chdir
 }
 
 const tok = "zzTOKzz"
+
+// rawName: every byte of it is accepted as it is in a request target by Go's
+// request reader, and most of them are escaped when a URL is written.
+const rawName = "q\"r|s^t{u}`v\u00e9.txt"
 
 // forms enumerates the traversal grammar. Each entry is (class, string);
 // strings are *decoded* paths when wire=false and raw request-line/header
@@ -212,6 +270,25 @@ func forms(wire bool, r *rand.Rand, nRandom int) [][2]string {
 		add("trailing-or-bare", t)
 	}
 	if wire {
+		// Spellings of the request target of resources that exist: with a
+		// query component, in absolute form, with bytes sent raw that a URL
+		// writer escapes, with escapes a URL writer does not use. They name
+		// the same resources as the plain spelling.
+		for _, p := range []string{"/", "/sub", "/sub/", "/file.txt", "/sub/deep/", "/.cfg", "/sub/inner.txt"} {
+			for _, q := range []string{"?", "?list", "?x=/../../" + tok, "?%2e%2e/%2e%2e/" + tok, "??", "?a=1&b=http://dav.test/sub"} {
+				add("spelling-query", p+q)
+			}
+			add("spelling-absolute", "http://dav.test"+p)
+			add("spelling-absolute", "http://dav.test:8080"+p+"?list")
+			add("spelling-absolute", "HTTP://other.example"+p+"?")
+		}
+		for _, t := range []string{"/a\uFFFEb.txt", "/sub/\uFFFF", "/sub/" + rawName, "/sub/" + rawName + "?list", "/sub/./deep/../" + rawName, "http://dav.test/sub/" + rawName,
+			"/sub/caf\u00e9%20\u4e2d\u6587%20%2541+~'()", "/sub/\u00e9/../"} {
+			add("spelling-raw-bytes", t)
+		}
+		for _, t := range []string{"/%73ub", "/%73%75%62/", "/sub%2Finner.txt", "/%2E%63fg", "/sub%2f%2e%2e%2fsub/", "/file%2etxt", "/sub/%2e%2e%2e"} {
+			add("spelling-escapes", t)
+		}
 		for _, t := range []string{"/%00" + tok, "/sub%00/../../" + tok, "/%2e%2e%00/" + tok, "*", "/" + tok + "?x=../../y", "/" + tok + "#/../..", "//dav.test/../" + tok, "http://dav.test", "http://dav.test:80/../../" + tok, "/\t../" + tok, "/%ff%fe/../../" + tok} {
 			add("wire-special", t)
 		}
@@ -254,6 +331,10 @@ func min(a, b int) int {
 	return b
 }
 
+// hostileSources are traversal spellings (valid as raw request targets and as
+// decoded paths) of resources that exist in the "tree" pre-state.
+var hostileSources = []string{"/../file.txt", "/sub/../../sub/", "//sub//deep/..", "/./file.txt", "/sub/deep/../../../../file.txt", "/../../../sub/./"}
+
 var targetMethods = []string{"OPTIONS", "GET", "HEAD", "PUT", "DELETE", "MKCOL", "PROPFIND", "COPY", "MOVE", "PROPPATCH", "FOO"}
 
 // cases builds the deterministic case list of one channel kind.
@@ -276,20 +357,38 @@ func cases(c *fw.Ctx, wire bool) []Case {
 					continue
 				}
 				cs := Case{Method: m, Channel: "target", Wire: wire, Form: f[0], Str: f[1], State: st}
-				if m == "PROPFIND" {
+				switch m {
+				case "PROPFIND":
+					// with and without a request body of the method's own
 					cs.Depth = []string{"0", "1", "infinity"}[fi%3]
+					cs.Body = []string{"", "allprop", "prop", "propname"}[(fi/3)%4]
+				case "PROPPATCH":
+					// a body the XML layer refuses (none) and one it accepts
+					l = append(l, cs)
+					cs.Body = "update"
 				}
 				l = append(l, cs)
 			}
-			for _, m := range []string{"COPY", "MOVE"} {
-				for _, src := range []string{"/file.txt", "/sub"} {
+			for mi, m := range []string{"COPY", "MOVE"} {
+				srcs := []string{"/file.txt", "/sub"}
+				if fi%4 == 1 || c.Thorough() {
+					// both channels hostile at once: a traversal spelling of
+					// an existing source
+					srcs = append(srcs, hostileSources[(fi/4)%len(hostileSources)])
+				}
+				for si, src := range srcs {
 					if st == "empty" {
 						continue
 					}
 					if !c.Thorough() && src == "/sub" && fi%2 == 0 {
 						continue
 					}
-					l = append(l, Case{Method: m, Channel: "destination", Wire: wire, Form: f[0], Str: f[1], State: st, Source: src})
+					cs := Case{Method: m, Channel: "destination", Wire: wire, Form: f[0], Str: f[1], State: st, Source: src}
+					cs.Overwrite = []string{"", "T", "F"}[(fi+mi+si)%3]
+					if m == "COPY" {
+						cs.Depth = []string{"", "infinity", "0"}[(fi/3+si)%3]
+					}
+					l = append(l, cs)
 				}
 			}
 		}
@@ -311,12 +410,57 @@ func unmappable(p string) bool {
 	return strings.Contains(p, "\x00") || !strings.HasPrefix(path.Clean(p), "/")
 }
 
-func (s *sandbox) check(c *fw.Ctx, cs Case, res result, before, after mon.Snap, h http.Handler) {
+// requestPaths gives the decoded paths the request names: the request path
+// and, for COPY/MOVE, the Destination path. ok is false where the string is
+// one that net/http (request target) or a URL reader (Destination) does not
+// accept at all; such a request has no path and must be refused.
+func requestPaths(cs Case) (target string, targetOK bool, dest string, destOK bool, hasDest bool) {
+	t := cs.Str
+	if cs.Channel == "destination" {
+		t = cs.Source
+	}
+	if cs.raw() {
+		// the way a server reads a request target: an absolute-URL form
+		// contributes its path
+		if u, err := url.ParseRequestURI(t); err == nil {
+			target, targetOK = u.Path, true
+		}
+	} else {
+		target, targetOK = t, true
+	}
+	if cs.Method != "COPY" && cs.Method != "MOVE" {
+		return
+	}
+	hasDest = true
+	d := "/copied-" + tok
+	if cs.Channel == "destination" {
+		d = cs.Str
+		if cs.raw() {
+			d = strings.Trim(d, " \t") // header values arrive without surrounding blanks
+		}
+	}
+	if u, err := url.Parse(d); err == nil && d != "" {
+		dest, destOK = u.Path, true
+	}
+	return
+}
+
+// sender sends a path back as PROPFIND Depth 0: p is the decoded path, raw
+// the href text as reported.
+type sender func(raw, p string) (status int, body []byte, err error)
+
+func (s *sandbox) check(c *fw.Ctx, cs Case, res result, before, after mon.Snap, send sender) {
 	c.Eval(1)
 	c.Observe("status", fmt.Sprintf("%s %d", cs.Method, res.Status), 1)
-	chanKind := map[bool]string{false: "inproc", true: "wire"}[cs.Wire]
+	chanKind := cs.kind()
 	c.Observe("forms", fmt.Sprintf("%s|%s|%s", chanKind, cs.Channel, cs.Form), 1)
 	c.Distinct(fmt.Sprintf("%s|%s|%s|%s|%s", chanKind, cs.Channel, cs.Form, cs.Method, cs.State))
+	if cs.Body != "" {
+		c.Observe("request-bodies", fmt.Sprintf("%s %s -> %d", cs.Method, cs.Body, res.Status), 1)
+	}
+	if cs.Channel == "destination" {
+		c.Observe("destination-headers", fmt.Sprintf("%s overwrite=%q depth=%q -> %d", cs.Method, cs.Overwrite, cs.Depth, res.Status), 1)
+	}
 	keyBase := fmt.Sprintf("%s|%s|%s|%s", cs.Method, cs.Channel, chanKind, cs.Form)
 	if cs.Root != "" {
 		keyBase += "|root=" + cs.Root
@@ -349,18 +493,23 @@ func (s *sandbox) check(c *fw.Ctx, cs Case, res result, before, after mon.Snap, 
 			break
 		}
 	}
-	// unmappable paths must be refused (in-process channel: the decoded path is known exactly)
-	if !cs.Wire && !res.NoReply {
-		bad := false
-		if cs.Channel == "target" {
-			bad = unmappable(cs.Str)
-		} else if cs.Method == "COPY" || cs.Method == "MOVE" {
-			if u, err := url.Parse(cs.Str); err != nil || cs.Str == "" || unmappable(u.Path) {
-				bad = true
-			}
+	// unmappable paths must be refused, whatever the method and whatever else
+	// the request carries. In-process the decoded path is known exactly; a raw
+	// request target / header is decoded the way net/http and a URL reader
+	// decode it (a target net/http does not accept is refused by net/http).
+	target, targetOK, dest, destOK, hasDest := requestPaths(cs)
+	refusalOwed := false
+	if !res.NoReply {
+		bad := !targetOK || unmappable(target)
+		if cs.Channel == "destination" {
+			bad = hasDest && (!destOK || unmappable(dest))
 		}
-		if bad && cs.Method != "FOO" && cs.Method != "PROPPATCH" {
-			c.Observe("unmappable", fmt.Sprintf("%d", res.Status), 1)
+		if cs.Wire && cs.Method == "OPTIONS" && cs.Str == "*" {
+			bad = false // "OPTIONS *" addresses the server, not a path; net/http answers it itself
+		}
+		refusalOwed = bad
+		if bad {
+			c.Observe("unmappable", fmt.Sprintf("%s %d", chanKind, res.Status), 1)
 			if res.Status < 400 || res.Status > 499 {
 				c.Report(fmt.Sprintf("%s|%s|unmappable-path|status=%d", cs.Method, cs.Channel, res.Status),
 					fmt.Sprintf("a path that cannot be mapped below the root was answered %d, not 4xx", res.Status),
@@ -368,60 +517,109 @@ func (s *sandbox) check(c *fw.Ctx, cs Case, res result, before, after mon.Snap, 
 			}
 		}
 	}
-	// hrefs round trip
-	if res.Status == 207 && h != nil {
-		ms, err := davx.ReadMultiStatus(res.Body)
-		if err != nil {
-			c.Report(keyBase+"|unreadable-multistatus", "multi-status not readable: "+err.Error(), map[string]interface{}{"case": cs, "body": trunc(string(res.Body), 600)})
-			return
+	// hrefs: inside the namespace, inside what the request names, round trip
+	// (an answer to a request that had to be refused is one finding, above)
+	if res.Status == 207 && send != nil && !refusalOwed {
+		var scope []string
+		if targetOK {
+			scope = append(scope, target)
 		}
-		seenHref := map[string]bool{}
-		for i, r := range ms.Responses {
-			for _, raw := range r.Hrefs {
-				if seenHref[raw] {
-					c.Report(keyBase+"|duplicate-href", fmt.Sprintf("href %q is reported for two resources of one answer", raw), map[string]interface{}{"case": cs, "href": raw})
+		if hasDest && destOK {
+			scope = append(scope, dest)
+		}
+		s.checkHrefs(c, keyBase, map[string]interface{}{"case": cs}, res.Body, scope, targetOK && (!hasDest || destOK), cs.Body == "propname", send)
+	}
+}
+
+// checkHrefs judges the paths a multi-status body reports: each is usable as
+// a request path of the served namespace, names the resource the request
+// names or a member of it (scope: the request path and the Destination path;
+// scopeKnown is false when one of them could not be decoded), and - unless
+// the entry reports a failure on that resource (DAV:status >= 400), which the
+// resource need not have survived - addresses the same resource when sent
+// back.
+func (s *sandbox) checkHrefs(c *fw.Ctx, keyBase string, wit map[string]interface{}, body []byte, scope []string, scopeKnown bool, namesOnly bool, send sender) {
+	with := func(kv ...interface{}) map[string]interface{} {
+		m := map[string]interface{}{}
+		for k, v := range wit {
+			m[k] = v
+		}
+		for i := 0; i+1 < len(kv); i += 2 {
+			m[kv[i].(string)] = kv[i+1]
+		}
+		return m
+	}
+	ms, err := davx.ReadMultiStatus(body)
+	if err != nil {
+		c.Report(keyBase+"|unreadable-multistatus", "multi-status not readable: "+err.Error(), with("body", trunc(string(body), 600)))
+		return
+	}
+	seenHref := map[string]bool{}
+	for i, r := range ms.Responses {
+		for _, raw := range r.Hrefs {
+			if seenHref[raw] {
+				c.Report(keyBase+"|duplicate-href", fmt.Sprintf("href %q is reported for two resources of one answer", raw), with("href", raw))
+			}
+			seenHref[raw] = true
+		}
+		if i >= 40 {
+			break
+		}
+		for _, raw := range r.Hrefs {
+			c.Observe("hrefs", "examined", 1)
+			// The statement's reading: the reported href, sent back as a
+			// request path, must address the same resource. Parse it the
+			// way a server parses a request target (an absolute URL form
+			// contributes its path).
+			raw = strings.TrimSpace(raw)
+			u, err := url.ParseRequestURI(raw)
+			if err != nil || !strings.HasPrefix(u.Path, "/") || strings.Contains(u.Path, "\x00") {
+				c.Report(keyBase+"|href-outside-namespace", fmt.Sprintf("href %q is not usable as a request path inside the served namespace", raw), with("href", raw))
+				continue
+			}
+			p := u.Path
+			if scopeKnown && len(scope) > 0 {
+				in := false
+				cp := path.Clean(p)
+				for _, sc := range scope {
+					sc = path.Clean(sc)
+					if sc == "/" || cp == sc || strings.HasPrefix(cp, sc+"/") {
+						in = true
+					}
 				}
-				seenHref[raw] = true
-			}
-			if i >= 40 {
-				break
-			}
-			for _, raw := range r.Hrefs {
-				c.Observe("hrefs", "round-tripped", 1)
-				// The statement's reading: the reported href, sent back as a
-				// request path, must address the same resource. Parse it the
-				// way a server parses a request target (an absolute URL form
-				// contributes its path).
-				u, err := url.ParseRequestURI(strings.TrimSpace(raw))
-				if err != nil || !strings.HasPrefix(u.Path, "/") || strings.Contains(u.Path, "\x00") {
-					c.Report(keyBase+"|href-outside-namespace", fmt.Sprintf("href %q is not usable as a request path inside the served namespace", raw), map[string]interface{}{"case": cs, "href": raw})
+				if !in {
+					c.Report(keyBase+"|href-outside-request-scope", fmt.Sprintf("href %q names neither a resource the request names (%q) nor a member of one", raw, scope), with("href", raw, "scope", scope))
 					continue
 				}
-				p := u.Path
-				s.roundTrip(c, cs, keyBase, h, r, p)
 			}
+			if r.Status != nil && r.Status.Code >= 400 {
+				c.Observe("hrefs", "failure entries (not sent back)", 1)
+				continue
+			}
+			c.Observe("hrefs", "round-tripped", 1)
+			s.roundTrip(c, keyBase, with, send, r, raw, p, namesOnly)
 		}
 	}
 }
 
 // roundTrip sends the reported path back as PROPFIND Depth 0 and compares
 // with the file the path denotes inside the root.
-func (s *sandbox) roundTrip(c *fw.Ctx, cs Case, keyBase string, h http.Handler, r davx.Response, p string) {
-	req := httptest.NewRequest("PROPFIND", "http://dav.test/", nil)
-	req.URL = &url.URL{Scheme: "http", Host: "dav.test", Path: p}
-	req.Header.Set("Depth", "0")
-	rec := httptest.NewRecorder()
-	panicked, pv, _ := fw.Guard(func() { h.ServeHTTP(rec, req) })
-	if panicked {
-		c.Report(keyBase+"|href-round-trip-panic", fmt.Sprintf("PROPFIND of reported href %q panicked: %v", p, pv), map[string]interface{}{"case": cs, "href": p})
+func (s *sandbox) roundTrip(c *fw.Ctx, keyBase string, with func(...interface{}) map[string]interface{}, send sender, r davx.Response, raw, p string, namesOnly bool) {
+	code, body, err := send(raw, p)
+	if err != nil {
+		if pe, ok := err.(panicErr); ok {
+			c.Report(keyBase+"|href-round-trip-panic", fmt.Sprintf("PROPFIND of reported href %q panicked: %v", p, pe.v), with("href", p))
+		} else {
+			c.Observe("hrefs", "not sent back: "+err.Error(), 1)
+		}
 		return
 	}
-	wit := map[string]interface{}{"case": cs, "href": p, "status": rec.Code, "body": trunc(rec.Body.String(), 500)}
-	if rec.Code != 207 {
-		c.Report(keyBase+"|href-does-not-address-a-resource", fmt.Sprintf("reported href %q answered %d when sent back as a request path", p, rec.Code), wit)
+	wit := with("href", p, "status", code, "body", trunc(string(body), 500))
+	if code != 207 {
+		c.Report(keyBase+"|href-does-not-address-a-resource", fmt.Sprintf("reported href %q answered %d when sent back as a request path", p, code), wit)
 		return
 	}
-	ms, err := davx.ReadMultiStatus(rec.Body.Bytes())
+	ms, err := davx.ReadMultiStatus(body)
 	if err != nil || len(ms.Responses) != 1 {
 		c.Report(keyBase+"|href-round-trip-unreadable", fmt.Sprintf("PROPFIND Depth 0 of %q did not give one response", p), wit)
 		return
@@ -434,9 +632,12 @@ func (s *sandbox) roundTrip(c *fw.Ctx, cs Case, keyBase string, h http.Handler, 
 		return
 	}
 	same := func(a, b davx.Response) bool {
-		ra, _ := a.Prop(davx.NS, "resourcetype")
-		rb, _ := b.Prop(davx.NS, "resourcetype")
-		if (ra != nil && ra.First(davx.NS, "collection") != nil) != (rb != nil && rb.First(davx.NS, "collection") != nil) {
+		if namesOnly {
+			return true // the answer to a propname request carries no values to compare
+		}
+		ra, ca := a.Prop(davx.NS, "resourcetype")
+		rb, cb := b.Prop(davx.NS, "resourcetype")
+		if ra != nil && rb != nil && ca == 200 && cb == 200 && (ra.First(davx.NS, "collection") != nil) != (rb.First(davx.NS, "collection") != nil) {
 			return false
 		}
 		for _, n := range []string{"getcontentlength", "getetag"} {
@@ -453,6 +654,25 @@ func (s *sandbox) roundTrip(c *fw.Ctx, cs Case, keyBase string, h http.Handler, 
 	isColl := rt != nil && rt.First(davx.NS, "collection") != nil
 	if isColl != fi.IsDir() || !same(r, back) {
 		c.Report(keyBase+"|href-addresses-a-different-resource", fmt.Sprintf("reported href %q describes another resource when sent back", p), wit)
+	}
+}
+
+type panicErr struct{ v interface{} }
+
+func (p panicErr) Error() string { return fmt.Sprint("panic: ", p.v) }
+
+// inProcSender sends a reported path back through the handler.
+func inProcSender(h http.Handler) sender {
+	return func(raw, p string) (int, []byte, error) {
+		req := httptest.NewRequest("PROPFIND", "http://dav.test/", nil)
+		req.URL = &url.URL{Scheme: "http", Host: "dav.test", Path: p}
+		req.RequestURI = req.URL.RequestURI()
+		req.Header.Set("Depth", "0")
+		rec := httptest.NewRecorder()
+		if panicked, pv, _ := fw.Guard(func() { h.ServeHTTP(rec, req) }); panicked {
+			return 0, nil, panicErr{pv}
+		}
+		return rec.Code, rec.Body.Bytes(), nil
 	}
 }
 
@@ -474,8 +694,18 @@ func runInProc(c *fw.Ctx) {
 	defer os.RemoveAll(sb.base)
 	cur := ""
 	pristine := ""
+	// Histories: of every 24 consecutive cases of a shard, 8 are served one
+	// after the other without the pre-state being rebuilt in between, so that
+	// a hostile string meets whatever the requests before it have left (files
+	// and collections under clamped names, a missing root, a root that is a
+	// file). The monitors do not depend on the state.
+	seq := 0
+	dirty := false
+	var prior []Case
 	one := func(i int, cs Case) bool {
-		if cur != cs.State || pristine == "" {
+		seq++
+		inHistory := (seq/8)%3 == 1
+		if cur != cs.State || pristine == "" || (dirty && (!inHistory || len(prior) >= 8)) {
 			if err := sb.resetRoot(cs.State); err != nil {
 				c.Inconclusive(err.Error())
 				return false
@@ -483,15 +713,30 @@ func runInProc(c *fw.Ctx) {
 			cur = cs.State
 			s, _ := mon.Snapshot(sb.root)
 			pristine = s.Shape()
+			dirty, prior = false, nil
+		}
+		if dirty {
+			cs.Prior = append([]Case(nil), prior...)
+			c.Observe("histories", fmt.Sprintf("cases served after %d state-changing request(s)", len(prior)), 1)
 		}
 		h, undo := sb.handler(cs.Root)
 		before := sb.outside()
 		res := serveInProc(c, h, cs)
 		after := sb.outside()
-		sb.check(c, cs, res, before, after, h)
+		sb.check(c, cs, res, before, after, inProcSender(h))
 		undo()
-		if s, _ := mon.Snapshot(sb.root); s.Shape() != pristine {
-			cur = "" // rebuilt before the next case
+		shape := pristine
+		if s, err := mon.Snapshot(sb.root); err == nil {
+			shape = s.Shape()
+		} else {
+			shape = "unreadable"
+		}
+		if shape != pristine || dirty {
+			// (after the first change every request counts as part of the history)
+			dirty = true
+			p := cs
+			p.Prior = nil
+			prior = append(prior, p)
 		}
 		if c.WantSample() && i%97 == 3 {
 			c.Sample(map[string]interface{}{"case": cs, "status": res.Status})
@@ -527,30 +772,109 @@ func runInProc(c *fw.Ctx) {
 			return
 		}
 	}
+	// the raw request lines and headers of the wire channel, read by
+	// net/http's request reader and handed to the handler without a socket:
+	// every answer is judged in full here (the handler is at hand for the
+	// round trip of every href)
+	off := len(cases(c, false))
+	for i, cs := range cases(c, true) {
+		if !c.Mine(off + i) {
+			continue
+		}
+		if !c.Thorough() && i%3 != 0 && !strings.HasPrefix(cs.Form, "spelling-") && cs.Form != "wire-special" && cs.Form != "plain" && cs.Form != "trailing-or-bare" {
+			continue // quick: a third of the grammar's bulk, all of the rest
+		}
+		cs.Wire, cs.Parsed = false, true
+		if !one(off+i, cs) {
+			return
+		}
+	}
+}
+
+// wireForm gives the request target, the headers and the body of a case whose
+// string is raw request text.
+func wireForm(cs Case) (target string, hdr [][2]string, body string) {
+	target = cs.Str
+	if cs.Method == "PUT" {
+		body = "hostile upload"
+	}
+	if cs.Body != "" {
+		body = xmlBody(cs.Body)
+		hdr = append(hdr, [2]string{"Content-Type", xmlContentType})
+	}
+	if cs.Channel == "destination" {
+		target = cs.Source
+		hdr = append(hdr, [2]string{"Destination", cs.Str})
+	} else if cs.Method == "COPY" || cs.Method == "MOVE" {
+		hdr = append(hdr, [2]string{"Destination", "/copied-" + tok})
+	}
+	if cs.Depth != "" {
+		hdr = append(hdr, [2]string{"Depth", cs.Depth})
+	}
+	if cs.Overwrite != "" {
+		hdr = append(hdr, [2]string{"Overwrite", cs.Overwrite})
+	}
+	return
+}
+
+func rawRequestText(method, target string, hdr [][2]string, body string) string {
+	var sb strings.Builder
+	fmt.Fprintf(&sb, "%s %s HTTP/1.1\r\nHost: dav.test\r\nConnection: close\r\n", method, target)
+	for _, h := range hdr {
+		fmt.Fprintf(&sb, "%s: %s\r\n", h[0], h[1])
+	}
+	fmt.Fprintf(&sb, "Content-Length: %d\r\n\r\n%s", len(body), body)
+	return sb.String()
 }
 
 func serveInProc(c *fw.Ctx, h http.Handler, cs Case) result {
-	var body *strings.Reader
-	if cs.Method == "PUT" {
-		body = strings.NewReader("hostile upload")
-	}
 	var req *http.Request
-	if body != nil {
-		req = httptest.NewRequest(cs.Method, "http://dav.test/", body)
-	} else {
-		req = httptest.NewRequest(cs.Method, "http://dav.test/", nil)
-	}
-	if cs.Channel == "target" {
-		req.URL = &url.URL{Scheme: "http", Host: "dav.test", Path: cs.Str}
-		if cs.Method == "COPY" || cs.Method == "MOVE" {
-			req.Header.Set("Destination", "/copied-"+tok)
+	if cs.Parsed {
+		// the request is read from its bytes by net/http's request reader,
+		// as on a connection; what that reader refuses never reaches the
+		// handler (a server answers 400)
+		target, hdr, body := wireForm(cs)
+		var err error
+		req, err = http.ReadRequest(bufio.NewReader(strings.NewReader(rawRequestText(cs.Method, target, hdr, body))))
+		if err != nil {
+			c.Observe("parsed-delivery", "refused by the request reader", 1)
+			return result{Status: 400}
 		}
+		c.Observe("parsed-delivery", "handed to the handler", 1)
 	} else {
-		req.URL = &url.URL{Scheme: "http", Host: "dav.test", Path: cs.Source}
-		req.Header["Destination"] = []string{cs.Str}
-	}
-	if cs.Depth != "" {
-		req.Header.Set("Depth", cs.Depth)
+		var body *strings.Reader
+		switch {
+		case cs.Body != "":
+			body = strings.NewReader(xmlBody(cs.Body))
+		case cs.Method == "PUT":
+			body = strings.NewReader("hostile upload")
+		}
+		if body != nil {
+			req = httptest.NewRequest(cs.Method, "http://dav.test/", body)
+		} else {
+			req = httptest.NewRequest(cs.Method, "http://dav.test/", nil)
+		}
+		if cs.Body != "" {
+			req.Header.Set("Content-Type", xmlContentType)
+		}
+		if cs.Channel == "target" {
+			req.URL = &url.URL{Scheme: "http", Host: "dav.test", Path: cs.Str}
+			if cs.Method == "COPY" || cs.Method == "MOVE" {
+				req.Header.Set("Destination", "/copied-"+tok)
+			}
+		} else {
+			req.URL = &url.URL{Scheme: "http", Host: "dav.test", Path: cs.Source}
+			req.Header["Destination"] = []string{cs.Str}
+		}
+		// a request has the request target it was read from; here: the one a
+		// URL writer produces for the path
+		req.RequestURI = req.URL.RequestURI()
+		if cs.Depth != "" {
+			req.Header.Set("Depth", cs.Depth)
+		}
+		if cs.Overwrite != "" {
+			req.Header.Set("Overwrite", cs.Overwrite)
+		}
 	}
 	rec := httptest.NewRecorder()
 	c.Journal(cs)
@@ -572,6 +896,7 @@ func init() {
 			runInProc(c)
 			runMissingRoot(c)
 			runLinkHistories(c)
+			runSpecialMembers(c)
 			runWire(c)
 		},
 		Replay: func(c *fw.Ctx, w json.RawMessage) {
@@ -586,22 +911,40 @@ func init() {
 				return
 			}
 			defer os.RemoveAll(sb.base)
+			var sw struct {
+				Slice string      `json:"slice"`
+				Trace []stateStep `json:"trace"`
+			}
+			if json.Unmarshal(w, &sw) == nil && strings.HasPrefix(sw.Slice, "special-members") && len(sw.Trace) > 0 {
+				sb.replaySpecialMembers(c, sw.Slice, sw.Trace)
+				return
+			}
 			sb.resetRoot(wit.Case.State)
 			h, undo := sb.handler(wit.Case.Root)
 			defer undo()
+			for _, p := range wit.Case.Prior {
+				p.Parsed, p.Wire = p.Parsed || p.Wire, false
+				ph, pundo := sb.handler(p.Root)
+				serveInProc(c, ph, p)
+				pundo()
+			}
 			before := sb.outside()
 			cs := wit.Case
 			cs.Wire = false
+			cs.Parsed = cs.Parsed || wit.Case.Wire
 			res := serveInProc(c, h, cs)
-			sb.check(c, cs, res, before, sb.outside(), h)
+			sb.check(c, cs, res, before, sb.outside(), inProcSender(h))
 			fmt.Printf("case %+v -> status %d body %.200q\n", cs, res.Status, string(res.Body))
 		},
-		Rule: "grammar of traversal forms (dot-dot x1..12 aimed at canaries next to and above the root, '.', empty segments, leading '//', trailing '/.' '/..', %2e%2e, %2f, %5c, backslashes, %00/raw NUL, overlong/invalid UTF-8, absolute-URL and scheme-relative forms, relative paths, a sibling directory sharing the root's name as prefix) plus seeded random strings, crossed with every method in both channels (request target, Destination header) against two pre-states; in-process (decoded path set directly) and over real TCP with raw request lines into a davserver process traced by strace. " +
-			"Monitors: canary snapshot (names, kinds, bytes, mtimes, inodes) outside the root before/after each request; response scan for canary names/contents; every multi-status href sent back as PROPFIND Depth 0; unmappable paths must get 4xx; strace log: no path outside the root that lies in the sandbox, carries the case token or is mutated. distinct_nontrivial = distinct (channel kind, channel, form class, method, pre-state).",
+		Rule: "grammar of traversal forms (dot-dot x1..12 aimed at canaries next to and above the root, '.', empty segments, leading '//', trailing '/.' '/..', %2e%2e, %2f, %5c, backslashes, %00/raw NUL, overlong/invalid UTF-8, absolute-URL and scheme-relative forms, relative paths, a sibling directory sharing the root's name as prefix) plus seeded random strings, crossed with every method in both channels (request target, Destination header) against two pre-states; in-process (decoded path set directly), in-process through net/http's request reader (raw request lines and headers), and over real TCP with raw request lines into davserver processes traced by strace (one per shard, each configured with another spelling of the root). " +
+			"Further dimensions: PROPFIND / PROPPATCH with and without a well-formed XML body of the method; spellings of the request target of existing resources (query component, absolute form, bytes sent raw that a URL writer escapes, unusual escapes); Overwrite and Depth headers and traversal spellings of the source in the Destination channel; histories (8 of every 24 cases of a shard meet what the cases before them left); state slices: missing root, link histories, special members (collections holding a socket, a dangling link, a link loop, a file without permissions, under COPY / MOVE / DELETE with every kind of Destination). " +
+			"Monitors: canary snapshot (names, kinds, bytes, mtimes, inodes) outside the root before/after each request; response scan for canary names/contents; every href of every multi-status body (whatever the method, in every channel) must parse as a request path, name the request's resource, its Destination or a member of them, and - unless its entry reports a failure (DAV:status >= 400) - describe the same resource when sent back as PROPFIND Depth 0 (over the socket as the literal request target); unmappable paths (decoded path known in-process; raw targets decoded the way net/http decodes them) must get 4xx from every method; strace log: no path outside the root that lies in the sandbox, carries the case token or is mutated. distinct_nontrivial = distinct (channel kind, channel, form class, method, pre-state).",
 		Assumptions: []string{
 			"symbolic links inside the root are out of scope (WebDAV cannot create them; the quantifier is over request strings)",
 			"removing or re-creating the root directory itself (DELETE / and traversal forms that clean to /) is inside the served directory; the OS needs a read-only open of the root's parent for that, which the strace rule allows for exactly those requests",
-			"requests net/http rejects before the handler runs (400) count as refused",
+			"requests net/http rejects before the handler runs (400) count as refused; 'OPTIONS *' over a socket is answered by net/http itself and is not a path",
+			"an entry of a multi-status body that reports a failure on a member (RFC 4918 9.8.5) may name the member below the source or below the Destination, and that member need not exist afterwards: only namespace and scope are judged for it",
+			"the values of an answer to a propname request are not compared on the round trip (there are none); kind and existence are",
 			"if ptrace is unavailable the strace monitor is inconclusive and the evidence says so; the canary and response monitors still decide",
 		},
 		MinEvals:    func(t string) int64 { return 3000 },
